@@ -8,7 +8,7 @@ from contracts import estimators
 def build(chk):
     chk.assumptions_used.update(["A-REAL", "A-NP"])
     estimators.obligations(chk)
-    chk.notes.append("calculate_structure_function requires every requested lag to leave at least one overlapping row: nbOfPoint*step <= rows + step - 1 (explicit arguments), rows >= cols (defaults)")
+    chk.notes.append("calculate_structure_function: no shape precondition (all R, C >= 1, step >= 1, nbOfPoint >= 1); that every returned lag has an overlapping row is proved (definedness of the mean)")
     chk.not_decided.append("applied to generated screens the estimator follows the analytic structure function (statistical)")
 
 
